@@ -12,7 +12,9 @@ package webrtc
 // goroutine).
 
 import (
+	"fmt"
 	"sort"
+	"strings"
 	"sync"
 	"testing"
 	"time"
@@ -73,9 +75,138 @@ type vfC22Step struct {
 
 type vfC22Case struct {
 	Steps []vfC22Step `json:"steps"`
+	// Live, when set, runs a real pair instead: the stored state must equal the aggregate of the
+	// transports' own states whenever the transports have settled.
+	Live *vfC22Live `json:"live,omitempty"`
+}
+
+type vfC22Live struct {
+	Tamper        int  `json:"tamper"`           // 0 none, 1 fingerprint in the offer altered (answerer's handshake check fails), 2 in the answer
+	NoCloseByDTLS bool `json:"no_close_by_dtls"` // SettingEngine.DisableCloseByDTLS
+	Media         int  `json:"media"`            // 0 data channel only, 1 plus a video track
+	Close         int  `json:"close"`            // 0 nobody, 1 offerer closes after settling, 2 answerer
+}
+
+// vfC22RunLive: a real pair, optionally with a fingerprint altered in flight so that one side's
+// DTLS start fails.  Oracle: once ICE and DTLS states of a peer stopped changing, ConnectionState()
+// equals the reference aggregate of (closed, ICEConnectionState(), DTLS transport state).
+func vfC22RunLive(v *vfT, c vfC22Case) {
+	l := c.Live
+	api := vfPairAPI(func(se *SettingEngine) { se.DisableCloseByDTLS(l.NoCloseByDTLS) }, nil)
+	pcA, err := api.NewPeerConnection(Configuration{})
+	if err != nil {
+		v.Skip("NewPeerConnection")
+	}
+	pcB, err := api.NewPeerConnection(Configuration{})
+	if err != nil {
+		_ = pcA.Close()
+		v.Skip("NewPeerConnection")
+	}
+	defer func() { _ = pcA.Close(); _ = pcB.Close() }()
+	pcB.OnDataChannel(func(*DataChannel) {})
+	if _, err = pcA.CreateDataChannel("c22", nil); err != nil {
+		v.Skip("CreateDataChannel")
+	}
+	if l.Media == 1 {
+		tr, err := NewTrackLocalStaticSample(RTPCodecCapability{MimeType: MimeTypeVP8}, "v", "s")
+		if err == nil {
+			_, _ = pcA.AddTrack(tr)
+		}
+	}
+	flip := func(sdp string) string {
+		i := strings.Index(sdp, "a=fingerprint:sha-256 ")
+		if i < 0 {
+			return sdp
+		}
+		j := i + len("a=fingerprint:sha-256 ")
+		b := []byte(sdp)
+		for k := j; k < len(b) && b[k] != '\r' && b[k] != '\n'; k++ {
+			switch {
+			case b[k] == ':':
+			case b[k] == 'A':
+				b[k] = 'B'
+			default:
+				b[k] = 'A'
+			}
+		}
+		return string(b)
+	}
+	if err := vfPairSignal(pcA, pcB, func(sdp string, isOffer bool) string {
+		if (l.Tamper == 1 && isOffer) || (l.Tamper == 2 && !isOffer) {
+			return flip(sdp)
+		}
+		return sdp
+	}); err != nil {
+		v.Skip("signalling: " + err.Error())
+	}
+	type snap struct {
+		ice  ICEConnectionState
+		dtls DTLSTransportState
+	}
+	take := func(pc *PeerConnection) snap { return snap{pc.ICEConnectionState(), pc.dtlsTransport.State()} }
+	settled := func(pc *PeerConnection) bool {
+		// transports left their transient states and did not move for 200ms
+		last, since := take(pc), time.Now()
+		deadline := time.Now().Add(15 * time.Second)
+		for time.Now().Before(deadline) {
+			time.Sleep(5 * time.Millisecond)
+			cur := take(pc)
+			if cur != last {
+				last, since = cur, time.Now()
+				continue
+			}
+			transient := cur.ice == ICEConnectionStateNew || cur.ice == ICEConnectionStateChecking ||
+				cur.dtls == DTLSTransportStateNew || cur.dtls == DTLSTransportStateConnecting
+			if !transient && time.Since(since) > 200*time.Millisecond {
+				return true
+			}
+		}
+		return false
+	}
+	judge := func(name string, pc *PeerConnection, closed bool) {
+		if !settled(pc) {
+			v.Label("live:not-settled(not asserted)")
+			return
+		}
+		// the update that follows the last transport change may still be in flight: poll briefly
+		var got, ref PeerConnectionState
+		ok := vfPairWait(3*time.Second, func() bool {
+			s := take(pc)
+			// the closed flag is read from the connection itself: a peer may close itself when its
+			// DTLS transport is closed by the remote (close-by-DTLS)
+			closed = pc.isClosed.Load()
+			got, ref = pc.ConnectionState(), vfC22Ref(closed, s.ice, s.dtls)
+			return got == ref
+		})
+		s := take(pc)
+		v.Label(fmt.Sprintf("live:%s:ice=%s,dtls=%s", name, s.ice, s.dtls))
+		if !ok {
+			v.Violation("C22/live/stale", "%s (tamper=%d, no_close_by_dtls=%v): transports settled at ice=%s dtls=%s closed=%v, ConnectionState()=%s for 3s, W3C aggregate=%s",
+				name, l.Tamper, l.NoCloseByDTLS, s.ice, s.dtls, closed, got, ref)
+		}
+	}
+	judge("offerer", pcA, false)
+	judge("answerer", pcB, false)
+	switch l.Close {
+	case 1:
+		_ = pcA.Close()
+		judge("offerer-closed", pcA, true)
+		judge("answerer-after-peer-close", pcB, false)
+	case 2:
+		_ = pcB.Close()
+		judge("answerer-closed", pcB, true)
+		judge("offerer-after-peer-close", pcA, false)
+	}
+	if l.Tamper != 0 {
+		v.NonTrivial()
+	}
 }
 
 func vfC22Run(v *vfT, c vfC22Case) {
+	if c.Live != nil {
+		vfC22RunLive(v, c)
+		return
+	}
 	pc, err := NewPeerConnection(Configuration{})
 	if err != nil {
 		v.Skip("NewPeerConnection failed: " + err.Error())
@@ -197,4 +328,40 @@ func TestVerif_C22_Sequences(t *testing.T) {
 		}
 		return c
 	}, vfC22Run)
+}
+
+// TestVerif_C22_Live: the update sites, not only the function: real pairs (optionally with one
+// side's DTLS start failing on an altered fingerprint, with and without close-by-DTLS, then a
+// close) must report the aggregate of what their transports settled at.
+func TestVerif_C22_Live(t *testing.T) {
+	s := vfOpen(t, "C22", vfC22LiveOpts, vfC22Run)
+	defer s.Close()
+	if s.Replay() {
+		return
+	}
+	shard, nshards := vfShard()
+	n := 0
+	for tamper := 0; tamper <= 2; tamper++ {
+		for _, nc := range []bool{false, true} {
+			for media := 0; media <= 1; media++ {
+				for cl := 0; cl <= 2; cl++ {
+					n++
+					if n%nshards != shard {
+						continue
+					}
+					if vfTier() == "quick" && (media+cl+tamper)%2 == 1 {
+						continue // quick tier: half of the 36 combinations
+					}
+					if s.One(vfC22Case{Live: &vfC22Live{Tamper: tamper, NoCloseByDTLS: nc, Media: media, Close: cl}}) {
+						return
+					}
+				}
+			}
+		}
+	}
+}
+
+var vfC22LiveOpts = vfOpts{
+	Rule:        "live family: real pairs over {no tampering, fingerprint altered in the offer, in the answer} x {close-by-DTLS on, off} x {data only, plus video} x {nobody closes, offerer, answerer}; whenever a peer's ICE and DTLS states have settled its ConnectionState() must equal the reference aggregate; non-trivial = a DTLS start failure was provoked",
+	Assumptions: []string{"a peer counts as settled when its ICE and DTLS states left new/checking/connecting and did not change for 200 ms; the stored state is polled for 3 s before a mismatch is reported"},
 }
